@@ -3,25 +3,15 @@
 (* space: 1..MaxFiles input files of 0..MaxItems items each, items drawn from Shapes (long and short   *)
 (* headers, entry records, empty records, several CPUs/segments/granularities), filter lists Filters.  *)
 (* (G) the same space, or random wide cases, printed with the expected output bytes for replay.        *)
-EXTENDS PBind, Json
+EXTENDS PBind, CodeFileGen, Json
 
-CONSTANTS MaxFiles, MaxItems, Starts, ByteLens, CpuSegGran, Forms, EntryAddrs, Filters, Creators
+CONSTANTS MaxFiles, Filters, Quiets, Dev
 
 VARIABLES c, fi, ii, out, pc
 vars == <<c, fi, ii, out, pc>>
 
-Pat(k, n) == [i \in 1..n |-> (k * 48 + i) % 256]
-\* record shapes: CpuSegGran = <<cpu, seg, gran>>; Forms = header forms to try (TRUE = short where the format allows)
-Shapes == {sh \in [k : {"D"}, start : Starts, len : ByteLens, csg : CpuSegGran, short : Forms] :
-             /\ sh.len % sh.csg[3] = 0
-             /\ sh.short => (sh.csg[2] = SegCode /\ sh.csg[1] < 128 /\ sh.csg[3] = ImplicitGran(sh.csg[1], sh.csg[2]))}
-          \cup [k : {"E"}, addr : EntryAddrs]
-MkItem(sh, k) == IF sh.k = "E" THEN [k |-> "E", addr |-> sh.addr]
-                 ELSE [k |-> "D", cpu |-> sh.csg[1], seg |-> sh.csg[2], gran |-> sh.csg[3], start |-> sh.start,
-                       data |-> Pat(k, sh.len), short |-> sh.short]
-FileSpace == {Encode([k \in 1..Len(shs) |-> MkItem(shs[k], k)], cr) :
-                 shs \in UNION {[1..n -> Shapes] : n \in 0..MaxItems}, cr \in Creators}
-CaseSpace == {[files |-> fs, filt |-> f] : fs \in UNION {[1..n -> FileSpace] : n \in 1..MaxFiles}, f \in Filters}
+CaseSpace == {[files |-> fs, filt |-> f, quiet |-> q] :
+                 fs \in UNION {[1..n -> FileSpace] : n \in 1..MaxFiles}, f \in Filters, q \in Quiets}
 
 Init == c \in CaseSpace /\ fi = 1 /\ ii = 1 /\ out = Magic /\ pc = "copy"
 
@@ -30,6 +20,9 @@ Step ==
   /\ pc = "copy"
   /\ IF \E i \in 1..Len(c.files) : ReaderRejects(c.files[i])
      THEN out' = <<>> /\ pc' = "failed" /\ UNCHANGED <<fi, ii>>
+     ELSE IF /\ "quiet_stale_errno" \in Dev /\ c.quiet /\ fi <= Len(c.files) /\ ii <= Len(CurItems)
+             /\ IsData(CurItems[ii]) /\ FilterOK(c.filt, CurItems[ii].cpu)
+     THEN out' = <<>> /\ pc' = "ioerror" /\ UNCHANGED <<fi, ii>>
      ELSE IF fi > Len(c.files) THEN out' = out \o <<0>> \o Creator /\ pc' = "done" /\ UNCHANGED <<fi, ii>>
      ELSE IF ii > Len(CurItems) THEN fi' = fi + 1 /\ ii' = 1 /\ UNCHANGED <<out, pc>>
      ELSE out' = CopyItem(c.filt, out, CurItems[ii]) /\ ii' = ii + 1 /\ UNCHANGED <<fi, pc>>
@@ -37,9 +30,10 @@ Step ==
 Next == Step
 Spec == Init /\ [][Next]_vars
 
-Result == [rc |-> IF pc = "failed" THEN 3 ELSE 0, bytes |-> out]
-Conforms      == (pc \in {"done", "failed"} /\ Definite(c)) => Conserved(c, Result)
-StepRunAgrees == pc \in {"done", "failed"} => Result = Run(c)
+Ended == pc \in {"done", "failed", "ioerror"}
+Result == [rc |-> IF pc = "failed" THEN 3 ELSE IF pc = "ioerror" THEN 2 ELSE 0, bytes |-> out]
+Conforms      == (Ended /\ Definite(c)) => Conserved(c, Result)
+StepRunAgrees == Ended => Result = Run(Dev, c)
 \* at every moment the target is a decodable prefix: closing it would give a well-formed code file
 PrefixOK      == pc = "copy" => Decode(out \o <<0>>).ok
 \* the grammar round-trips: decoding the generated inputs gives back abstract items, and re-encoding them the bytes
@@ -48,25 +42,18 @@ RoundTrip     == (pc = "copy" /\ fi = 1 /\ ii = 1) => \A i \in 1..Len(c.files) :
 HeaderRule    == pc = "done" => \A i \in 1..Len(Decode(out).items) :
                     LET it == Decode(out).items[i] IN IsData(it) => (it.short <=> CanShort(it))
 \* the target never shrinks and only grows by whole records
-Monotone      == [][IsPrefix(out, out') \/ pc' = "failed"]_vars
+Monotone      == [][IsPrefix(out, out') \/ pc' \in {"failed", "ioerror"}]_vars
 
 \* ---- (G) ------------------------------------------------------------------------------------------
-CaseOut(cc) == [c |-> cc, exp |-> Run(cc), def |-> Definite(cc), allowed |-> Definite(cc) => Conserved(cc, Run(cc))]
+CaseOut(cc) == [c |-> cc, exp |-> Run({}, cc), def |-> Definite(cc), allowed |-> Definite(cc) => Conserved(cc, Run({}, cc))]
 CoverInit == c \in CaseSpace /\ fi = 1 /\ ii = 1 /\ out = Magic /\ pc = "gen"
 CoverNext == pc = "gen" /\ PrintT(<<"TR", ToJson(CaseOut(c))>>) /\ pc' = "printed" /\ UNCHANGED <<c, fi, ii, out>>
 CoverSpec == CoverInit /\ [][CoverNext]_vars
 
 \* random wide cases: <= 4 files of <= 4 items; the item list is grown one item per step in `out`-free variables
-SimCSG == {<<81, 1, 1>>, <<97, 1, 1>>, <<112, 1, 2>>, <<9, 1, 4>>, <<81, 2, 1>>, <<49, 3, 1>>, <<112, 2, 1>>, <<59, 1, 2>>,
-           <<59, 2, 1>>, <<200, 1, 1>>, <<118, 1, 4>>, <<1, 1, 2>>}
-SimShapes == {sh \in [k : {"D"}, start : {0, 1, 255, 256, 65535, 1048576}, len : {0, 1, 2, 3, 4, 8, 12}, csg : SimCSG,
-                      short : BOOLEAN] :
-                /\ sh.len % sh.csg[3] = 0
-                /\ sh.short => (sh.csg[2] = SegCode /\ sh.csg[1] < 128 /\ sh.csg[3] = ImplicitGran(sh.csg[1], sh.csg[2]))}
-             \cup [k : {"E"}, addr : {0, 4660, 16777215}]
 SimFilters == {<<>>, <<81>>, <<97, 112>>, <<9>>, <<59, 49, 200>>, <<129>>, <<2>>}
 \* during generation c.files holds ITEM LISTS; they are encoded when the case is finished
-SimInit == c = [files |-> <<<<>>>>, filt |-> <<>>] /\ fi = 0 /\ ii = 0 /\ out = <<>> /\ pc = "sim"
+SimInit == c = [files |-> <<<<>>>>, filt |-> <<>>, quiet |-> FALSE] /\ fi = 0 /\ ii = 0 /\ out = <<>> /\ pc = "sim"
 SimNext ==
   /\ pc = "sim" /\ ii' = ii + 1 /\ UNCHANGED <<fi, out>>
   /\ LET nf == Len(c.files) IN
@@ -74,18 +61,16 @@ SimNext ==
         /\ UNCHANGED pc
         /\ \/ \E sh \in SimShapes : Len(c.files[nf]) < 4 /\ c' = [c EXCEPT !.files[nf] = Append(@, MkItem(sh, ii + 1))]
            \/ nf < 4 /\ c' = [c EXCEPT !.files = Append(@, <<>>)]
-     ELSE IF ii = 7 THEN UNCHANGED pc /\ \E f \in SimFilters : c' = [c EXCEPT !.filt = f]
+     ELSE IF ii = 7 THEN UNCHANGED pc /\ \E f \in SimFilters, q \in BOOLEAN : c' = [c EXCEPT !.filt = f, !.quiet = q]
      ELSE pc' = "emit" /\ c' = [c EXCEPT !.files = [i \in 1..nf |-> Encode(c.files[i], <<65, 83, 32, 49>>)]]
 SimSpec == SimInit /\ [][SimNext]_vars
 SimDump == pc = "emit" => PrintT(<<"BEH", ToJson(CaseOut(c))>>)
 
 \* named constants for the cfg files
-CSG_Small == {<<81, 1, 1>>, <<112, 1, 2>>, <<81, 2, 1>>, <<200, 1, 1>>}
-CSG_Two   == {<<81, 1, 1>>, <<112, 1, 2>>}
-CSG_Three == {<<81, 1, 1>>, <<112, 1, 2>>, <<200, 2, 1>>}
+Q_Both    == BOOLEAN
+Q_No      == {FALSE}
+D_None    == {}
+D_Quiet   == {"quiet_stale_errno"}
 F_Small   == {<<>>, <<81>>, <<112, 200>>}
 F_Two     == {<<>>, <<112>>}
-Cr_One    == {<<65, 83>>}
-Cr_Two    == {<<65, 83>>, <<>>}
-Forms_Both == BOOLEAN
 =============================================================================
